@@ -7,7 +7,7 @@ use crate::direct::{info, Res, World};
 use crate::rng::Rng;
 use cosmwasm_std::{
     coin, AnyMsg, BankMsg, Binary, Coin, CosmosMsg, DistributionMsg, Empty, GovMsg, IbcMsg,
-    IbcTimeout, Response, StakingMsg, Timestamp, Uint128, VoteOption, WasmMsg,
+    Env, IbcTimeout, Response, StakingMsg, Timestamp, Uint128, VoteOption, WasmMsg,
 };
 use cw1_subkeys::msg::ExecuteMsg as SubMsg;
 use cw1_subkeys::state::Permissions;
@@ -111,9 +111,54 @@ impl Op {
     }
 }
 
+const MAX_SELF_DEPTH: u32 = 6;
+
+fn self_calls(e: &Env, r: &Response) -> Vec<cosmwasm_std::Binary> {
+    r.messages
+        .iter()
+        .filter_map(|m| match &m.msg {
+            CosmosMsg::Wasm(WasmMsg::Execute { contract_addr, msg, .. }) if *contract_addr == e.contract.address.as_str() => Some(msg.clone()),
+            _ => None,
+        })
+        .collect()
+}
+
+fn run_wl(mut d: cosmwasm_std::DepsMut, e: Env, sender: &str, msg: WlMsg<Empty>, depth: u32) -> Result<Response, String> {
+    let r = cw1_whitelist::contract::execute(d.branch(), e.clone(), info(sender), msg).map_err(|x| x.to_string())?;
+    if depth != u32::MAX {
+        for b in self_calls(&e, &r) {
+            if depth >= MAX_SELF_DEPTH {
+                return Err("self-call nesting too deep".into());
+            }
+            let inner: WlMsg<Empty> = cosmwasm_std::from_json(&b).map_err(|x| format!("self-call not parseable: {x}"))?;
+            let me = e.contract.address.to_string();
+            run_wl(d.branch(), e.clone(), &me, inner, depth + 1)?;
+        }
+    }
+    Ok(r)
+}
+
+fn run_sub(mut d: cosmwasm_std::DepsMut, e: Env, sender: &str, msg: SubMsg<Empty>, depth: u32) -> Result<Response, String> {
+    let r = cw1_subkeys::contract::execute(d.branch(), e.clone(), info(sender), msg).map_err(|x| x.to_string())?;
+    if depth != u32::MAX {
+        for b in self_calls(&e, &r) {
+            if depth >= MAX_SELF_DEPTH {
+                return Err("self-call nesting too deep".into());
+            }
+            let inner: SubMsg<Empty> = cosmwasm_std::from_json(&b).map_err(|x| format!("self-call not parseable: {x}"))?;
+            let me = e.contract.address.to_string();
+            run_sub(d.branch(), e.clone(), &me, inner, depth + 1)?;
+        }
+    }
+    Ok(r)
+}
+
 pub struct Proxy {
     pub w: World,
     pub kind: Kind,
+    /// deliver messages the proxy relays to ITSELF (WasmMsg::Execute to its own address) inside the same
+    /// transaction, with the proxy as sender, as a chain would; a failing inner call fails the whole call
+    pub dispatch_self: bool,
 }
 
 impl Proxy {
@@ -122,7 +167,7 @@ impl Proxy {
         let t = rng.range(1_500_000_000, 1_900_000_000);
         let mut w = World::new(h, t);
         w.block.time = w.block.time.plus_nanos(rng.below(1_000_000_000));
-        Proxy { w, kind }
+        Proxy { w, kind, dispatch_self: false }
     }
 
     pub fn instantiate(&mut self, admins: Vec<String>, mutable: bool) -> Res<Response> {
@@ -147,8 +192,8 @@ impl Proxy {
                     Op::UpdateAdmins { admins } => WlMsg::UpdateAdmins { admins },
                     _ => return Res::Err("not a whitelist message".into()),
                 };
-                self.w
-                    .tx(|d, e| cw1_whitelist::contract::execute(d, e, info(sender), msg))
+                let ds = self.dispatch_self;
+                self.w.tx(|d, e| run_wl(d, e, sender, msg, if ds { 0 } else { u32::MAX }))
             }
             Kind::Subkeys => {
                 let msg: SubMsg<Empty> = match op.clone() {
@@ -170,8 +215,8 @@ impl Proxy {
                         permissions: perm.to(),
                     },
                 };
-                self.w
-                    .tx(|d, e| cw1_subkeys::contract::execute(d, e, info(sender), msg))
+                let ds = self.dispatch_self;
+                self.w.tx(|d, e| run_sub(d, e, sender, msg, if ds { 0 } else { u32::MAX }))
             }
         }
     }
@@ -203,6 +248,80 @@ impl Proxy {
                 .map(|r| r.can_execute)
             }),
         }
+    }
+
+    /// Subkeys only: Allowance / AllAllowances / Permissions / AllPermissions, all through the `query` entry
+    /// point, against the stored grants in `s.raw` / `s.perms`. Returns a description of the first disagreement.
+    pub fn queries_disagree(&self, s: &Snap) -> Option<String> {
+        if self.kind != Kind::Subkeys {
+            return None;
+        }
+        let (height, now) = (self.w.block.height, self.w.block.time.nanos());
+        let live = |a: &str| s.raw.get(a).filter(|x| !x.exp.expired(height, now)).cloned();
+        let to_allow = |b: &cw_utils::NativeBalance, e: &cw_utils::Expiration| Allow { coins: b.0.iter().map(|c| (c.denom.clone(), c.amount.u128())).collect(), exp: Exp::from(e) };
+        let mut listed: BTreeMap<String, Allow> = BTreeMap::new();
+        let mut cursor: Option<String> = None;
+        loop {
+            let page: Option<cw1_subkeys::msg::AllAllowancesResponse> = self
+                .w
+                .q(|d, e| cw1_subkeys::contract::query(d, e, cw1_subkeys::msg::QueryMsg::AllAllowances { start_after: cursor.clone(), limit: Some(30) }).and_then(|b| cosmwasm_std::from_json(&b)))
+                .ok();
+            let Some(page) = page else { return Some("AllAllowances failed".into()) };
+            if page.allowances.is_empty() {
+                break;
+            }
+            cursor = page.allowances.last().map(|a| a.spender.clone());
+            for a in page.allowances {
+                if listed.insert(a.spender.clone(), to_allow(&a.balance, &a.expires)).is_some() {
+                    return Some(format!("AllAllowances lists {} twice", a.spender));
+                }
+            }
+            if listed.len() > 2000 {
+                break;
+            }
+        }
+        let mut plisted: BTreeMap<String, Perm> = BTreeMap::new();
+        let mut cursor: Option<String> = None;
+        loop {
+            let page: Option<cw1_subkeys::msg::AllPermissionsResponse> = self
+                .w
+                .q(|d, e| cw1_subkeys::contract::query(d, e, cw1_subkeys::msg::QueryMsg::AllPermissions { start_after: cursor.clone(), limit: Some(30) }).and_then(|b| cosmwasm_std::from_json(&b)))
+                .ok();
+            let Some(page) = page else { return Some("AllPermissions failed".into()) };
+            if page.permissions.is_empty() {
+                break;
+            }
+            cursor = page.permissions.last().map(|a| a.spender.clone());
+            for a in page.permissions {
+                plisted.insert(a.spender.clone(), Perm::from(&a.permissions));
+            }
+            if plisted.len() > 2000 {
+                break;
+            }
+        }
+        for a in &pool().actors {
+            let want = live(a);
+            if listed.get(a) != want.as_ref() {
+                return Some(format!("AllAllowances shows {:?} for {a}, stored (unexpired) {:?}", listed.get(a), want));
+            }
+            let point = s.view.get(a).cloned();
+            let want_point = want.unwrap_or(Allow { coins: vec![], exp: Exp::Never });
+            if point.as_ref() != Some(&want_point) {
+                return Some(format!("Allowance{{{a}}} shows {point:?}, stored (unexpired) {want_point:?}"));
+            }
+            if plisted.get(a) != s.perms.get(a) {
+                return Some(format!("AllPermissions shows {:?} for {a}, stored {:?}", plisted.get(a), s.perms.get(a)));
+            }
+            let pp: Option<Permissions> = self
+                .w
+                .q(|d, e| cw1_subkeys::contract::query(d, e, cw1_subkeys::msg::QueryMsg::Permissions { spender: a.clone() }).and_then(|b| cosmwasm_std::from_json(&b)))
+                .ok();
+            let wantp = s.perms.get(a).copied().unwrap_or(Perm::bits(0));
+            if pp.as_ref().map(Perm::from) != Some(wantp) {
+                return Some(format!("Permissions{{{a}}} shows {pp:?}, stored {wantp:?}"));
+            }
+        }
+        None
     }
 
     pub fn snap(&self) -> Snap {
